@@ -41,12 +41,12 @@ def main():
         res["suite_outcomes_identical"] = (o == base["outcomes"])
         if o != base["outcomes"]:
             res["outcome_diff"] = sorted(set(o) ^ set(base["outcomes"]))[:20]
-        d = subprocess.run([PY, demo], cwd=wt, stdout=subprocess.PIPE, stderr=subprocess.STDOUT, text=True)
+        d = subprocess.run([PY, demo], cwd=wt, env=dict(os.environ, PYTHONPATH=wt), stdout=subprocess.PIPE, stderr=subprocess.STDOUT, text=True)
         res["demo_with_change_exit"] = d.returncode
         res["demo_with_change_tail"] = d.stdout[-600:]
     finally:
         subprocess.check_call(["git", "checkout", "--", "."], cwd=wt)
-    d = subprocess.run([PY, demo], cwd=wt, stdout=subprocess.PIPE, stderr=subprocess.STDOUT, text=True)
+    d = subprocess.run([PY, demo], cwd=wt, env=dict(os.environ, PYTHONPATH=wt), stdout=subprocess.PIPE, stderr=subprocess.STDOUT, text=True)
     res["demo_without_change_exit"] = d.returncode
     ok = res["suite_outcomes_identical"] and res["demo_with_change_exit"] != 0 and res["demo_without_change_exit"] == 0
     res["confirmed"] = ok
